@@ -62,7 +62,8 @@ def isSublist : List Nat → List Nat → Bool
 
 def handle (inp : String) (out : String) : String :=
   match words inp with
-  | ["verify", chain, outs] =>
+  | [op, chain, outs] =>
+    if op != "verify" && op != "verifyc" && op != "verifyf" then "skip unknown-op" else
     let ps := (chain.splitOn "|").map parsePolicy
     let ρ := mkρ (parseOutcomes outs)
     let v := verify ρ ps
